@@ -347,7 +347,7 @@ PROPS["C02"]["functions"] += [WB + "::flush_pending_deletions"]
 PROPS["C01"] = {
     "engine_name": "E2-mir-smt",
     "technique": "SMT (z3) path-condition entailment and trace obligations over the MIR of the hash-table mutation steps (per-call step semantics only)",
-    "level_text": "Reduced claim – the per-call step semantics on which the last-writer-wins equivalence rests, not the equivalence over call sequences: on EVERY MIR path of update_record_with_ttl(_bytes), replace_record_if_current and delete_with_timestamp z3 shows (i) the entry is changed only with ts_new > CURRENT.timestamp under the entry guard (a write/delete takes effect only if its timestamp is greater), (ii) validate -> reserve -> publish: every modification of shared state (refcount/retired_at stores, successor link, index, clock, counters) happens after the last fallible step, and a path that returns Err before publication has no effect at all (a failing call leaves the logical contents unchanged), (iii) the publication is complete (hash table, ordered index, clock observation, accounting). resolve_timestamp treats exactly Some(non-zero) as explicit. Thorough adds the vacant-insert paths.",
+    "level_text": "Reduced claim – the per-call step semantics on which the last-writer-wins equivalence rests, not the equivalence over call sequences: on EVERY MIR path of update_record_with_ttl(_bytes), replace_record_if_current and delete_with_timestamp z3 shows (i) the entry is changed only with ts_new > CURRENT.timestamp under the entry guard (a write/delete takes effect only if its timestamp is greater), (ii) validate -> reserve -> publish: every modification of shared state (refcount/retired_at stores, successor link, index, clock, counters) happens after the last fallible step, and a path that returns Err before publication has no effect at all (a failing call leaves the logical contents unchanged), (iii) the publication is complete (hash table, ordered index, clock observation, accounting). resolve_timestamp treats exactly Some(non-zero) as explicit. The new-key paths of insert_with_timestamp_and_ttl_internal, insert_bytes_with_expiry and insert_if_absent are analysed as one arbitrary iteration of their retry loop: the whole record size is reserved before the entry is created in the Vacant arm, then index, clock, commit and record_count+1; nothing on paths that create nothing.",
     "level_note": E2NOTE + ". NOT decided: call sequences, reads (tier fall-through memory/cache/disk), flush/reopen placement, JSON patch, range queries, configuration matrix – i.e. the equivalence itself. Claimed because these step obligations are the property's first and third anchored mechanisms and catch realistic slips in them; everything sequence- or tier-dependent is outside.",
     "functions": [INTERNAL + "::update_record_with_ttl", INTERNAL + "::update_record_with_ttl_bytes", "src/core/store/atomic.rs::replace_record_if_current", OPS + "::delete_with_timestamp", OPS + "::resolve_timestamp"],
     "smt": "c01",
@@ -411,3 +411,14 @@ PROPS["C17"]["functions"].append(PERSIST + "::drop")
 for _p in ("C06", "C05", "C09", "C02"):
     PROPS[_p]["jobs_thorough"] = 3
     PROPS[_p]["mem_gb"] = 40
+
+PROPS["C02"]["level_text"] += " force_flush returns Ok only from a round in which flush_pending_deletions returned Ok and no worker reported leftover work; flush_all writes metadata only after force_flush returned Ok."
+PROPS["C02"]["functions"] += [WB + "::force_flush", PERSIST + "::flush_all"]
+PROPS["C10"]["level_text"] += " flush_all stores total_records = record_count and total_size = disk_usage in the metadata it writes, after a successful force_flush."
+PROPS["C10"]["functions"].append(PERSIST + "::flush_all")
+PROPS["C12"]["level_text"] += " get_timestamp(key) = version_clock.next(key, wall clock)."
+PROPS["C13"]["level_text"] += " note_expired_record subtracts exactly one record and record_size."
+PROPS["C09"]["level_text"] += " ensure_writable refuses exactly when the poison flag is set, poison_writes sets it, and write_sectors_sync / flush reach their system call only after ensure_writable returned Ok."
+PROPS["C09"]["functions"] += [IO + "::ensure_writable", IO + "::poison_writes", IO + "::write_sectors_sync", IO + "::flush"]
+PROPS["C11"]["level_text"] += " The background sweeper (one arbitrary candidate) and recovery's expired-winner pass remove an entry only under its guard when it is the sampled/collected generation with 0 < expiry < now, and adjust counters only then."
+PROPS["C11"]["functions"] += ["src/core/ttl_sweep.rs::sample_and_expire_batch", REC + "::remove_expired_recovery_winners"]
